@@ -117,7 +117,9 @@ def sniffers(ctx):
              '<?xml version="1.0" encoding="X-1"?>', "<?xml version='1.0' encoding='x-2' standalone='yes'?>", ' <?xml version="1.0" encoding="x"?>',
              '<?xml version="1.0"?>', '<?xml encoding=""?>', '<?xml version="1.0" encoding="a\'b"?>', '<?xml version="1.0"\nencoding="nl"?>']
     for h in heads:
-        for tail in ('', '<doc/>', 'x' * 3000):
+        # (the declaration only counts at the very start of the document: look-alikes at the start of a LATER line or inside the body do not)
+        for tail in ('', '<doc/>', 'x' * 3000, '\n<?xml version="1.0" encoding="koi8-r"?>\n<a/>', '<a>\n<?xml-stylesheet href="x" encoding="iso-8859-15"?>\n</a>',
+                     '\r\n<?xml encoding="cp1251"?>'):
             doc = h + tail
             for pos in sorted({0, 1, len(doc) // 2, len(doc)}):
                 if pos > len(doc):
@@ -178,5 +180,5 @@ def sniffers(ctx):
         if got != default_encoding(tt if media is not None else OTHER):
             ctx.violation('bounded: encodingByMediaType = documented default of the media-type class', f'{media!r}: {got!r}', True, {'media_type': media})
     ctx.bounded.append({'name': 'sniffers', 'evaluations': n, 'distinct_nontrivial': len(kinds),
-                        'rule': 'detectXMLEncoding on 20 heads x 3 tails x 4 stream positions x includeDefault against a native oracle; getMetaInfo on 6 meta documents x 6 preambles of up to 4 100 characters, encodingByMediaType on the class table',
+                        'rule': 'detectXMLEncoding on 20 heads x 6 tails (incl. declaration look-alikes on later lines) x 4 stream positions x includeDefault against a native oracle; getMetaInfo on 6 meta documents x 6 preambles of up to 4 100 characters, encodingByMediaType on the class table',
                         'samples': samples, 'bound': 'fixed document list'})
